@@ -82,7 +82,7 @@ struct StrCase {
 struct StrOutcome {
     real: Result<Vec<u8>, String>,
     /// outputs of the three generators that differ from the hook's output
-    gen_diff: Vec<(String, String)>,
+    gen_diff: Vec<(String, String, bool, String)>,
     model: String,
     dec_luau: String,
     dec_51: String,
@@ -94,33 +94,52 @@ fn real_write_string(v: &[u8]) -> Result<Vec<u8>, String> {
     guarded(|| hooks::write_string(v).into_bytes())
 }
 
-fn generator_outputs(expr: &Expression) -> Vec<(String, Result<String, String>)> {
-    vec![
+/// the column spans the generators are exercised at (the first one is used for every case,
+/// the others on a sample): wide, narrower than most literals, and degenerate
+const SPANS: [usize; 3] = [80, 20, 3];
+
+fn generator_outputs_at(expr: &Expression, span: usize) -> Vec<(String, Result<String, String>)> {
+    let mut out = vec![
         (
-            "dense".to_owned(),
+            format!("dense@{}", span),
             guarded(|| {
-                let mut g = DenseLuaGenerator::new(80);
+                let mut g = DenseLuaGenerator::new(span);
                 g.write_expression(expr);
                 g.into_string()
             }),
         ),
         (
-            "readable".to_owned(),
+            format!("readable@{}", span),
             guarded(|| {
-                let mut g = ReadableLuaGenerator::new(80);
+                let mut g = ReadableLuaGenerator::new(span);
                 g.write_expression(expr);
                 g.into_string()
             }),
         ),
-        (
+    ];
+    if span == SPANS[0] {
+        out.push((
             "token_based".to_owned(),
             guarded(|| {
                 let mut g = TokenBasedLuaGenerator::new("");
                 g.write_expression(expr);
                 g.into_string()
             }),
-        ),
-    ]
+        ));
+    }
+    out
+}
+
+fn generator_outputs(expr: &Expression) -> Vec<(String, Result<String, String>)> {
+    generator_outputs_at(expr, SPANS[0])
+        .into_iter()
+        .map(|(name, out)| (name.split('@').next().unwrap().to_owned(), out))
+        .collect()
+}
+
+/// blanks a generator may put before/inside a piece for layout
+fn strip_layout(s: &str) -> String {
+    s.chars().filter(|c| *c != ' ' && *c != '\n').collect()
 }
 
 fn run_str_cases(cases: &[StrCase], with_generators: bool) -> Vec<StrOutcome> {
@@ -151,13 +170,25 @@ fn run_str_cases(cases: &[StrCase], with_generators: bool) -> Vec<StrOutcome> {
                     if let Ok(r) = &real {
                         let expected = String::from_utf8_lossy(r).into_owned();
                         let expr: Expression = StringExpression::from_value(c.v.clone()).into();
-                        for (name, out) in generator_outputs(&expr) {
+                        let mut outs = generator_outputs(&expr);
+                        if c.v.len() % 8 == 3 || c.family == "corpus" {
+                            outs.extend(generator_outputs_at(&expr, SPANS[1]));
+                            outs.extend(generator_outputs_at(&expr, SPANS[2]));
+                        }
+                        for (name, out) in outs {
                             match out {
                                 // a generator may break the line before a token that does not
                                 // fit its column span: leading blanks are not part of the literal
                                 Ok(s) if s.trim_start_matches([' ', '\n']) == expected => {}
-                                Ok(s) => gen_diff.push((name, s)),
-                                Err(e) => gen_diff.push((name, format!("panic: {}", e))),
+                                Ok(s) => {
+                                    // the generator's own entry point wrote something else: does
+                                    // it still denote the value? (oracle on ITS text)
+                                    let text = s.trim_start_matches([' ', '\n']).as_bytes().to_vec();
+                                    let decoded = model.ask(&format!("c13.decode luau {}", hex(&text)));
+                                    let ok = decoded == format!("some {}", hex(&c.v));
+                                    gen_diff.push((name, s, ok, decoded));
+                                }
+                                Err(e) => gen_diff.push((name, format!("panic: {}", e), false, "panic".into())),
                             }
                         }
                     }
@@ -174,6 +205,28 @@ fn run_str_cases(cases: &[StrCase], with_generators: bool) -> Vec<StrOutcome> {
             })
             .collect()
     })
+}
+
+/// a generator wrote, for a string node, something else than `utils::write_string`
+fn report_generator_string(report: &mut Report, c: &StrCase, name: &str, out: &str, denotes_value: bool, decoded: &str, real: &[u8]) {
+    let gname = name.split('@').next().unwrap_or(name);
+    if denotes_value {
+        report.violation(Violation {
+            kind: "correspondence".into(),
+            check: format!("generator-{}", gname),
+            what: format!("{} writes {:?}, write_string gives {:?} (both denote the value)", name, out, String::from_utf8_lossy(real)),
+            input: str_input(c),
+            failing_input_found: false,
+        });
+    } else {
+        report.violation(Violation {
+            kind: "oracle".into(),
+            check: format!("generator-string-roundtrip-{}", gname),
+            what: format!("{} writes the string as {:?}, which Luau reads as {}", name, out, decoded),
+            input: str_input(c),
+            failing_input_found: true,
+        });
+    }
 }
 
 fn str_input(c: &StrCase) -> Value {
@@ -370,19 +423,8 @@ fn evaluate_str(report: &mut Report, cases: &[StrCase], outcomes: &[StrOutcome],
                 None => {}
             }
         }
-        for (name, out) in &o.gen_diff {
-            report.violation(Violation {
-                kind: "correspondence".into(),
-                check: format!("generator-{}", name),
-                what: format!(
-                    "{} generator writes {:?}, write_string gives {:?}",
-                    name,
-                    out,
-                    String::from_utf8_lossy(real)
-                ),
-                input: str_input(c),
-                failing_input_found: false,
-            });
+        for (name, out, denotes_value, decoded) in &o.gen_diff {
+            report_generator_string(report, c, name, out, *denotes_value, decoded, real);
         }
         if nontrivial && report.samples.len() < 6 && (c.v.len() > 2 || c.v.len() == 2 && c.v[0] < 32)
         {
@@ -643,9 +685,22 @@ fn random_string(rng: &mut Rng) -> StrCase {
 // interpolated string segments
 // ------------------------------------------------------------------------------------------
 
+/// one whole interpolated string through one generator
+struct InterpResult {
+    shape: &'static str,
+    generator: String,
+    /// real text (leading layout stripped) or panic message
+    text: Result<String, String>,
+    /// the pieces the reference reads in the real text, `V` texts without blanks
+    pieces: String,
+    expected: String,
+    /// model text, when the expression texts are known in advance
+    model_text: Option<String>,
+}
+
 struct SegOutcome {
     real: Result<Vec<u8>, String>,
-    gen_ok: bool,
+    interp: Vec<InterpResult>,
     model: String,
     dec_tick: String,
     dec_brace: String,
@@ -673,25 +728,92 @@ fn run_seg_cases(cases: &[StrCase]) -> Vec<SegOutcome> {
             .map(|((c, real), answer)| {
                 let parts: Vec<&str> = answer.split(' ').collect();
                 let get = |i: usize| parts.get(i).copied().unwrap_or("?").to_owned();
-                // through the public generator: `…` around the segment (non-empty segments only)
-                let mut gen_ok = true;
-                if let (Ok(r), false) = (&real, c.v.is_empty()) {
-                    let expr: Expression = InterpolatedStringExpression::empty()
-                        .with_segment(StringSegment::from_value(c.v.clone()))
-                        .into();
-                    let mut expected = vec![b'`'];
-                    expected.extend_from_slice(r);
-                    expected.push(b'`');
-                    let out = guarded(|| {
-                        let mut g = DenseLuaGenerator::new(80);
-                        g.write_expression(&expr);
-                        g.into_string()
-                    });
-                    gen_ok = out
-                        .map(|s| s.trim_start_matches([' ', '\n']).as_bytes() == &expected[..])
-                        .unwrap_or(false);
+                // whole interpolated strings through the three generators' own entry points
+                let mut interp = Vec::new();
+                if real.is_ok() {
+                    let seg = || StringSegment::from_value(c.v.clone());
+                    let x = || darklua_core::nodes::ValueSegment::new(Expression::Identifier(Identifier::new("x")));
+                    let tbl = || darklua_core::nodes::ValueSegment::new(Expression::Table(TableExpression::new(vec![])));
+                    let s_part = if c.v.is_empty() { None } else { Some(format!("S{}", hex(&c.v))) };
+                    let join = |items: Vec<Option<String>>| -> String {
+                        let v: Vec<String> = items.into_iter().flatten().collect();
+                        if v.is_empty() { "-".to_owned() } else { v.join(",") }
+                    };
+                    let mut shapes: Vec<(&'static str, Expression, String, bool)> = vec![(
+                        "segment",
+                        InterpolatedStringExpression::empty().with_segment(seg()).into(),
+                        join(vec![s_part.clone()]),
+                        true,
+                    )];
+                    let sample = c.v.len() % 4 == 1 || (c.family == "segment-reduced-3" && c.v[0] % 4 == 0);
+                    if sample {
+                        shapes.push((
+                            "segment-value-segment",
+                            InterpolatedStringExpression::empty().with_segment(seg()).with_segment(x()).with_segment(seg()).into(),
+                            join(vec![s_part.clone(), Some("Vx78".to_owned()), s_part.clone()]),
+                            true,
+                        ));
+                        shapes.push((
+                            "table-value-segment",
+                            InterpolatedStringExpression::empty().with_segment(tbl()).with_segment(seg()).into(),
+                            join(vec![Some("Vx7b7d".to_owned()), s_part.clone()]),
+                            false,
+                        ));
+                    }
+                    for (shape, expr, expected, text_known) in shapes {
+                        let mut outs = generator_outputs_at(&expr, SPANS[0]);
+                        if sample {
+                            outs.extend(generator_outputs_at(&expr, SPANS[2]));
+                        }
+                        for (generator, out) in outs {
+                            let text = out.map(|t| t.trim_start_matches([' ', '\n']).to_owned());
+                            // the model text is compared at the wide span only (no layout inside `{}`)
+                            let compare_text = text_known && generator.ends_with("@80") || generator == "token_based" && text_known;
+                            interp.push(InterpResult {
+                                shape,
+                                generator,
+                                text,
+                                pieces: String::new(),
+                                expected: expected.clone(),
+                                model_text: if compare_text { Some(String::new()) } else { None },
+                            });
+                        }
+                    }
                 }
-                SegOutcome { real, gen_ok, model: get(0), dec_tick: get(1), dec_brace: get(2) }
+                let lines: Vec<String> = interp
+                    .iter()
+                    .filter_map(|r| r.text.as_ref().ok().map(|t| format!("c13.istr {} {}", r.expected, hex(t.as_bytes()))))
+                    .collect();
+                let mut answers = model.ask_batch(&lines).into_iter();
+                for r in interp.iter_mut() {
+                    if r.text.is_err() {
+                        r.pieces = "panic".to_owned();
+                        r.expected = format!("some:{}", r.expected);
+                        continue;
+                    }
+                    let answer = answers.next().unwrap_or_default();
+                    let mut it = answer.split(' ');
+                    let m = it.next().unwrap_or("?").to_owned();
+                    let p = it.next().unwrap_or("?").to_owned();
+                    // blanks inside `{ … }` are layout
+                    r.pieces = p
+                        .split(',')
+                        .map(|item| {
+                            if let Some(h) = item.strip_prefix("some:V").or_else(|| item.strip_prefix("V")) {
+                                let bytes: Vec<u8> = unhex(h).unwrap_or_default().into_iter().filter(|b| *b != b' ' && *b != b'\n').collect();
+                                format!("{}V{}", if item.starts_with("some:") { "some:" } else { "" }, hex(&bytes))
+                            } else {
+                                item.to_owned()
+                            }
+                        })
+                        .collect::<Vec<_>>()
+                        .join(",");
+                    if r.model_text.is_some() {
+                        r.model_text = Some(m);
+                    }
+                    r.expected = format!("some:{}", r.expected);
+                }
+                SegOutcome { real, interp, model: get(0), dec_tick: get(1), dec_brace: get(2) }
             })
             .collect()
     })
@@ -745,14 +867,42 @@ fn evaluate_seg(report: &mut Report, cases: &[StrCase], outcomes: &[SegOutcome])
                 failing_input_found: false,
             });
         }
-        if !o.gen_ok {
-            report.violation(Violation {
-                kind: "correspondence".into(),
-                check: "generator-interpolated".into(),
-                what: "dense generator output is not ` + segment + `".into(),
-                input,
-                failing_input_found: false,
-            });
+        for r in &o.interp {
+            let gname = r.generator.split('@').next().unwrap_or(&r.generator);
+            report.case(Some(("interp", r.shape, r.generator.as_str(), &c.v)));
+            report.hist("interpolated-shape", r.shape);
+            let ginput = json!({"kind": "segment", "family": c.family, "bytes_hex": hex(&c.v),
+                "shape": r.shape, "generator": r.generator});
+            match &r.text {
+                Err(e) => report.violation(Violation {
+                    kind: "oracle".into(),
+                    check: format!("generator-interpolated-panics-{}", gname),
+                    what: format!("{} panicked on the interpolated string ({}): {}", r.generator, r.shape, e),
+                    input: ginput,
+                    failing_input_found: true,
+                }),
+                Ok(text) if r.pieces != r.expected => report.violation(Violation {
+                    kind: "oracle".into(),
+                    check: format!("generator-interpolated-roundtrip-{}", gname),
+                    what: format!("{} writes {:?}; Luau reads the pieces {} instead of {}", r.generator, text, r.pieces, r.expected),
+                    input: ginput,
+                    failing_input_found: true,
+                }),
+                Ok(text) => {
+                    if let Some(m) = &r.model_text {
+                        // a raw line break is never part of a segment's text: inside `{ }` it is layout
+                        if m != &hex(text.replace('\n', "").as_bytes()) {
+                            report.violation(Violation {
+                                kind: "correspondence".into(),
+                                check: format!("generator-interpolated-text-{}", gname),
+                                what: format!("{} writes {:?}, model {:?}", r.generator, text, unhex(m).map(|b| String::from_utf8_lossy(&b).into_owned())),
+                                input: ginput,
+                                failing_input_found: false,
+                            });
+                        }
+                    }
+                }
+            }
         }
     }
 }
@@ -1072,14 +1222,10 @@ pub fn run(report: &mut Report, replay: Option<&str>) {
             .collect();
         let o = run_str_cases(&subset, true);
         for (c, o) in subset.iter().zip(&o) {
-            for (name, out) in &o.gen_diff {
-                report.violation(Violation {
-                    kind: "correspondence".into(),
-                    check: format!("generator-{}", name),
-                    what: format!("{} generator writes {:?}, not write_string's output", name, out),
-                    input: str_input(c),
-                    failing_input_found: false,
-                });
+            if let Ok(real) = &o.real {
+                for (name, out, denotes_value, decoded) in &o.gen_diff {
+                    report_generator_string(report, c, name, out, *denotes_value, decoded, real);
+                }
             }
         }
         report.count("generator_agreement_checked", subset.len() as u64);
@@ -1102,6 +1248,22 @@ pub fn run(report: &mut Report, replay: Option<&str>) {
     }
     let seg_out = run_seg_cases(&seg_cases);
     evaluate_seg(report, &seg_cases, &seg_out);
+
+    // ---- an empty literal piece built directly (`push_segment` drops them, `new` does not)
+    {
+        let expr: Expression = InterpolatedStringExpression::new(vec![
+            StringSegment::from_value(Vec::<u8>::new()).into(),
+            darklua_core::nodes::ValueSegment::new(Expression::Identifier(Identifier::new("x"))).into(),
+        ])
+        .into();
+        for (name, out) in generator_outputs(&expr) {
+            match out {
+                Ok(t) if strip_layout(&t) == "`{x}`" => {}
+                Ok(t) => report.notes.push(format!("{} writes an interpolated string with an empty literal piece as {:?}", name, t)),
+                Err(e) => report.notes.push(format!("observation: {} panics on an interpolated string holding an EMPTY literal piece (only constructible through InterpolatedStringExpression::new, not by the parser or push_segment): {}", name, e)),
+            }
+        }
+    }
 
     // ---- neighbouring tokens
     let mut neighbour_values: Vec<Vec<u8>> = structured_strings()
@@ -1276,6 +1438,8 @@ struct NumOutcome {
     reparsed_same: Option<bool>,
     model: String,
     value: String,
+    /// per generator (and span): name, real text (layout stripped) or panic, model text, value of the real text
+    gens: Vec<(String, Result<String, String>, String, String)>,
 }
 
 fn run_num_cases(cases: &[NumCase]) -> Vec<NumOutcome> {
@@ -1308,7 +1472,45 @@ fn run_num_cases(cases: &[NumCase]) -> Vec<NumOutcome> {
                             .unwrap_or(false),
                     ),
                 };
-                NumOutcome { real, reparsed_same, model: get(0), value: get(1) }
+                NumOutcome { real, reparsed_same, model: get(0), value: get(1), gens: Vec::new() }
+            })
+            .collect::<Vec<_>>()
+            .into_iter()
+            .zip(chunk.iter().enumerate())
+            .map(|(mut outcome, (index, c))| {
+                // the generators' OWN write_number entry points, on the node itself
+                let expr = Expression::Number(c.lit.clone());
+                let mut spans = vec![SPANS[0]];
+                if index % 8 == 0 {
+                    spans.extend([SPANS[1], SPANS[2]]);
+                }
+                for span in spans {
+                    let outs = generator_outputs_at(&expr, span);
+                    let text_of = |i: usize| -> Vec<u8> {
+                        outs.get(i)
+                            .and_then(|(_, r)| r.as_ref().ok())
+                            .map(|t| strip_layout(t).into_bytes())
+                            .unwrap_or_default()
+                    };
+                    // token_based has no column span: the third slot repeats dense at other spans
+                    let third = if outs.len() > 2 { text_of(2) } else { text_of(0) };
+                    let answer = model.ask(&format!(
+                        "c13.numg {} {} {} {}",
+                        lit_wire(&c.lit), hex(&text_of(0)), hex(&text_of(1)), hex(&third)
+                    ));
+                    let parts: Vec<&str> = answer.split(' ').collect();
+                    for (i, (name, out)) in outs.iter().enumerate() {
+                        let model_text = parts.get(i).copied().unwrap_or("?").to_owned();
+                        let value = parts.get(3 + i).copied().unwrap_or("?").to_owned();
+                        outcome.gens.push((
+                            name.clone(),
+                            out.as_ref().map(|t| strip_layout(t)).map_err(|e| e.clone()),
+                            model_text,
+                            value,
+                        ));
+                    }
+                }
+                outcome
             })
             .collect()
     })
@@ -1401,6 +1603,51 @@ fn evaluate_num(report: &mut Report, cases: &[NumCase], outcomes: &[NumOutcome])
                 input,
                 failing_input_found: false,
             });
+        }
+        // ---- the generators' own entry points
+        for (gname, out, model_text, value) in &o.gens {
+            let short = gname.split('@').next().unwrap_or(gname);
+            report.case(Some(("numg", gname.as_str(), &wire)));
+            let ginput = json!({"kind": "number", "family": c.family, "literal": wire, "generator": gname});
+            let text = match out {
+                Ok(t) => t,
+                Err(e) => {
+                    report.violation(Violation {
+                        kind: "oracle".into(),
+                        check: format!("generator-number-panics-{}", short),
+                        what: format!("{} panicked on the number node: {}", gname, e),
+                        input: ginput,
+                        failing_input_found: true,
+                    });
+                    continue;
+                }
+            };
+            let mut generator_oracle_failed = false;
+            if let Some(x) = lit_value(&c.lit) {
+                let got = value.strip_prefix("some:").and_then(wire_f64);
+                if !got.map(|g| same_double(g, x)).unwrap_or(false) {
+                    generator_oracle_failed = true;
+                    report.violation(Violation {
+                        kind: "oracle".into(),
+                        check: format!("generator-number-roundtrip-{}", short),
+                        what: format!(
+                            "{} writes the node as {:?}, which denotes {} instead of {} ({:e})",
+                            gname, text, value, f64_wire(x), x
+                        ),
+                        input: ginput.clone(),
+                        failing_input_found: true,
+                    });
+                }
+            }
+            if !generator_oracle_failed && unhex(model_text).map(|b| String::from_utf8_lossy(&b).into_owned()).as_deref() != Some(text.as_str()) {
+                report.violation(Violation {
+                    kind: "correspondence".into(),
+                    check: format!("generator-number-text-{}", short),
+                    what: format!("{} writes {:?}, model {:?}", gname, text, unhex(model_text).map(|b| String::from_utf8_lossy(&b).into_owned())),
+                    input: ginput,
+                    failing_input_found: false,
+                });
+            }
         }
         if shape == "exponent" && report.samples.len() < 10 {
             report.sample(json!({"literal": wire, "written": text, "denotes": o.value}));
